@@ -19,7 +19,7 @@ ID = "C18"
 LEVEL = "model_checking"
 MIN_OUTCOMES = 2
 MANIFEST = {
-    'text': "Complete product of the stated abstract-configuration dimensions, each point rendered in six config syntaxes (setup.cfg and bumpver.toml also with CRLF line endings, with blank/comment lines between patterns and keys, and among other tools' sections; pyproject.toml also with the README's top-level [bumpver] table) and read by the real loader: all Config results must be identical in every field the property names (versions, pattern, messages, scope, hooks, commit/tag/push, file/pattern pairs, acceptance) and equal to the abstract configuration; the config file's own entry is judged by function (it must match exactly the current_version line); CLI `show`/`update --dry` agree on a core subset.",
+    'text': "Complete product of the stated abstract-configuration dimensions, each point rendered in six config syntaxes (setup.cfg and bumpver.toml also with CRLF line endings, with blank/comment lines between patterns and keys, and among other tools' sections; pyproject.toml also with the README's top-level [bumpver] table) and read by the real loader: all Config results must be identical in every field the property names (versions, pattern, messages, scope, hooks, commit/tag/push, file/pattern pairs, acceptance) and equal to the abstract configuration; the config file's own entry is judged by function (it must match exactly the current_version line); CLI `show`/`update --dry` agree on a core subset. Two renderings put the section after more than 8 KiB of other tools' settings, next to another config-capable file that has no bumpver section.",
     'note': 'TOML features beyond plain tables/strings/arrays and mixed quoting of the two version keys inside one INI file are outside the space; values not expressible in INI (leading blank, #/; at line start) are excluded and counted',
     'technique': 'exhaustive enumeration of a bounded configuration space, differential oracle across six renderings on the real loader',
 }
@@ -44,7 +44,10 @@ RENDERINGS = ["setup.cfg[bumpver]", "setup.cfg[pycalver]", "pyproject.toml", "bu
               # the same content laid out differently: blank and comment lines between the patterns of a file entry and between keys
               "setup.cfg[bumpver]+airy", "setup.cfg[pycalver]+airy", "bumpver.toml+airy",
               # the section among other tools' sections (before and after it); pyproject.toml with the README's top-level [bumpver] table
-              "setup.cfg[bumpver]+neighbours", "bumpver.toml+neighbours", "pyproject.toml+neighbours", "pyproject.toml[top]+neighbours"]
+              "setup.cfg[bumpver]+neighbours", "bumpver.toml+neighbours", "pyproject.toml+neighbours", "pyproject.toml[top]+neighbours",
+              # the section FAR down a long shared file (> 8 KiB of other tools' settings before it), next to another config-capable file
+              # that holds no bumpver section
+              "setup.cfg[bumpver]+far", "pyproject.toml+far"]
 INI_TRUE = ["yes", "true", "1", "on", "Yes", "TRUE", "On", "True"]
 INI_FALSE = ["no", "false", "0", "off", "No", "FALSE", "Off", "False"]
 
@@ -94,6 +97,14 @@ def render(abstract, rendering):
             before = "[metadata]\nname = demo\ndescription: colon style\n\n[tool:pytest]\naddopts = -q\n\n"
             after = "\n[options]\nzip_safe = False\n\n[bumpversion]\ncommit = True\n"
         return name, before + text + after
+    if rendering.endswith("+far"):
+        name, text = render(abstract, rendering[:-4])
+        if name.endswith(".toml"):
+            before = "".join(f'[tool.other{i}]\nsetting = "{"x" * 60}"\nnumber = {i}\n\n' for i in range(90))
+        else:
+            before = "".join(f"[other{i}]\nsetting = {'x' * 60}\nnumber = {i}\n\n" for i in range(100))
+        assert len(before) > 8192
+        return name, before + text
     if rendering.endswith("+airy"):
         name, text = render(abstract, rendering[:-5])
         out, prev_indented, in_patterns = [], False, False
@@ -186,6 +197,15 @@ def expected(abstract):
     }
 
 
+def companions(rendering):
+    """Other config-capable files that lie next to the config file (they hold no bumpver section)."""
+    if rendering == "setup.cfg[bumpver]+far":
+        return {"pyproject.toml": '[build-system]\nrequires = ["setuptools"]\n\n[tool.black]\nline-length = 100\n'}
+    if rendering == "pyproject.toml+far":
+        return {"setup.cfg": "[metadata]\nname = demo\n\n[flake8]\nmax-line-length = 100\n"}
+    return {}
+
+
 def observe(cfgname):
     ctx, cfg = bvconfig.init(project_path=".")
     if cfg is None:
@@ -273,6 +293,9 @@ def run_chunk(chunk):
                     os.unlink(other)
             with open(name, "w", encoding="utf-8", newline="") as f:
                 f.write(text)
+            for cname, ctext in companions(rendering).items():
+                with open(cname, "w", encoding="utf-8", newline="") as f:
+                    f.write(ctext)
             try:
                 results[rendering] = observe(name)
             except Exception as ex:
@@ -348,6 +371,9 @@ def cli_level(st, abstract):
                 os.unlink(other)
         with open(name, "w", encoding="utf-8", newline="") as f:
             f.write(text)
+        for cname, ctext in companions(rendering).items():
+            with open(cname, "w", encoding="utf-8", newline="") as f:
+                f.write(ctext)
         o1 = world.cli("show", "--no-fetch")
         o2 = world.cli("update", "--dry", "--no-fetch", "--set-version", {"1.2.3": "1.2.4", "v202003.1001-beta": "v202103.1002", "v201712.0033-beta": "v201801.0034", "2024.1100": "2033.1101"}[abstract[0][0]])
         st.evaluations += 2
